@@ -166,11 +166,13 @@ func (r *Run) Violation(signature string, what string, replay interface{}) {
 	r.mtx.Lock()
 	defer r.mtx.Unlock()
 	for _, f := range r.known {
-		if f.Signature == signature {
-			if r.knownSeen[signature] == 0 {
-				fmt.Printf("KNOWN-FINDING: property=%s %s [%s]\n", r.ID, f.What, signature)
+		// a listed signature may end its segments with "*" (one listed finding = one failing input class, e.g. "LPAD with
+		// a huge length, whatever the pad string"); the line is printed once per listed finding
+		if f.Signature == signature || (strings.Contains(f.Signature, "*") && globMatch(f.Signature, signature)) {
+			if r.knownSeen[f.Signature] == 0 {
+				fmt.Printf("KNOWN-FINDING: property=%s %s [%s]\n", r.ID, f.What, f.Signature)
 			}
-			r.knownSeen[signature]++
+			r.knownSeen[f.Signature]++
 			return
 		}
 	}
@@ -290,3 +292,25 @@ func JSON(v interface{}) string {
 
 // NewRand returns a deterministic generator for a derived seed.
 func NewRand(seed int64) *rand.Rand { return rand.New(rand.NewSource(seed)) }
+
+
+// globMatch: "*" in the pattern matches any run of characters.
+func globMatch(pattern, s string) bool {
+	parts := strings.Split(pattern, "*")
+	if !strings.HasPrefix(s, parts[0]) {
+		return false
+	}
+	s = s[len(parts[0]):]
+	for i := 1; i < len(parts); i++ {
+		p := parts[i]
+		if i == len(parts)-1 {
+			return strings.HasSuffix(s, p)
+		}
+		k := strings.Index(s, p)
+		if k < 0 {
+			return false
+		}
+		s = s[k+len(p):]
+	}
+	return true
+}
